@@ -202,7 +202,10 @@ class ConcreteGen:
                 return 1.0
             r = self.rng
             choice = r.random()
-            if choice < 0.12:
+            hist = self.__dict__.setdefault('_history', [])
+            if hist and r.random() < 0.15:
+                v = r.choice(hist)           # coincidences (equal element values) are rare by chance but matter
+            elif choice < 0.12:
                 v = 0.0
             elif choice < 0.24:
                 v = float(r.randint(-3, 3))
@@ -214,6 +217,7 @@ class ConcreteGen:
                 v = lo + abs(v)
             if hi is not None and v > hi:
                 v = hi - abs(v)
+            hist.append(v)
             return v
         return float(self._get(name, 'real', d))
 
